@@ -28,9 +28,11 @@ pub struct SearchRun {
     pub sent: Vec<BoardState>,
 }
 
+/// Every entry of the record, zero counts included: "left exactly as it was given" is taken
+/// literally (entries that stay behind with a zero count are invisible to the readers, which use
+/// unwrap_or(&0), but they are not the record that was given and they accumulate - see D15).
 pub fn table_entries(dt: &DrawTable) -> Vec<(u64, u8)> {
-    // zero-count entries are observationally absent: every reader uses unwrap_or(&0)
-    let mut v: Vec<(u64, u8)> = dt.table.iter().filter(|(_, c)| **c != 0).map(|(k, c)| (*k, *c)).collect();
+    let mut v: Vec<(u64, u8)> = dt.table.iter().map(|(k, c)| (*k, *c)).collect();
     v.sort_unstable();
     v
 }
